@@ -34,11 +34,13 @@ type ibbAction struct {
 
 type ibbCase struct {
 	Mode    string      `json:"mode"`
+	Carrier string      `json:"carrier,omitempty"` // iq (default) | message: the stanza that carries the data
 	Actions []ibbAction `json:"actions"`
 }
 
 type ibbRun struct {
 	base
+	carrier string // iq | message
 	h       *ibb.Handler
 	conn    net.Conn
 	reader  *actor
@@ -60,8 +62,11 @@ type ibbRun struct {
 	nreads  int
 }
 
-func newIbbRun() (*ibbRun, error) {
-	x := &ibbRun{rpos: "none", spos: "idle"}
+func newIbbRun(carrier string) (*ibbRun, error) {
+	if carrier == "" {
+		carrier = "iq"
+	}
+	x := &ibbRun{rpos: "none", spos: "idle", carrier: carrier}
 	x.h = &ibb.Handler{}
 	m := mux.New(stanza.NSClient, ibb.Handle(x.h))
 	if err := x.start(ibbPark, ibbNote, m); err != nil {
@@ -73,7 +78,7 @@ func newIbbRun() (*ibbRun, error) {
 		c, _ := l.Accept()
 		acc <- c
 	}()
-	open := `<iq type="set" id="o1" from="` + peerFull + `" to="` + x.s.LocalAddr().String() + `"><open xmlns="http://jabber.org/protocol/ibb" sid="s1" block-size="4096" stanza="iq"/></iq>`
+	open := `<iq type="set" id="o1" from="` + peerFull + `" to="` + x.s.LocalAddr().String() + `"><open xmlns="http://jabber.org/protocol/ibb" sid="s1" block-size="4096" stanza="` + carrier + `"/></iq>`
 	if err := x.p.Send([]byte(open)); err != nil {
 		return nil, err
 	}
@@ -234,6 +239,9 @@ func (x *ibbRun) do(a ibbAction) {
 	case "data":
 		payload := base64.StdEncoding.EncodeToString([]byte(strings.Repeat("x", a.N)))
 		raw := fmt.Sprintf(`<iq type="set" id="d%d" from="%s" to="%s"><data xmlns="http://jabber.org/protocol/ibb" seq="%d" sid="s1">%s</data></iq>`, x.seq, peerFull, x.s.LocalAddr(), x.seq, payload)
+		if x.carrier == "message" {
+			raw = fmt.Sprintf(`<message id="d%d" from="%s" to="%s"><data xmlns="http://jabber.org/protocol/ibb" seq="%d" sid="s1">%s</data></message>`, x.seq, peerFull, x.s.LocalAddr(), x.seq, payload)
+		}
 		if err := x.p.Send([]byte(raw)); err != nil {
 			x.fail("C06/ibb/serve-stall:not-reading", err.Error())
 			return
@@ -261,7 +269,7 @@ func (x *ibbRun) do(a ibbAction) {
 		}
 		x.pending = a.N
 		x.spos = "locked"
-		x.label("FData %d%%nat", a.N)
+		x.label("FData %s %d%%nat", map[string]string{"iq": "CIq", "message": "CMsg"}[x.carrier], a.N)
 		if a.N == 0 {
 			x.classes["empty-packet"] = true
 		}
@@ -413,15 +421,15 @@ func (x *ibbRun) coqCase(o ibbObs) string {
 
 func (x *runner) ibbEmit(run *ibbRun, acts []ibbAction, note string) {
 	o := run.observe()
-	x.ibb.Add(run.coqCase(o), map[string]interface{}{"case": ibbCase{Mode: "ibb", Actions: append([]ibbAction(nil), acts...)}, "observed": o, "labels": run.labels, "note": note})
+	x.ibb.Add(run.coqCase(o), map[string]interface{}{"case": ibbCase{Mode: "ibb", Carrier: run.carrier, Actions: append([]ibbAction(nil), acts...)}, "observed": o, "labels": run.labels, "note": note})
 }
 
 func (x *runner) ibbFinish(run *ibbRun, acts []ibbAction, class string) {
 	run.finish()
 	x.noteSlow("ibb", run.failed, run.failWhat)
-	cc := ibbCase{Mode: "ibb", Actions: acts}
+	cc := ibbCase{Mode: "ibb", Carrier: run.carrier, Actions: acts}
 	canon, _ := json.Marshal(cc)
-	cls := []string{"ibb/" + class}
+	cls := []string{"ibb/" + class, "ibb/carrier-" + run.carrier}
 	for c := range run.classes {
 		cls = append(cls, "ibb/saw-"+c)
 	}
@@ -434,16 +442,16 @@ func (x *runner) ibbFinish(run *ibbRun, acts []ibbAction, class string) {
 	run.teardown()
 }
 
-func (x *runner) ibbReplay(acts []ibbAction, class string) {
+func (x *runner) ibbReplay(carrier string, acts []ibbAction, class string) {
 	if x.skip("ibb") && class != "replay" {
 		return
 	}
-	run, err := newIbbRun()
+	run, err := newIbbRun(carrier)
 	if err != nil {
 		x.res.Fail("C06/harness/setup", err.Error(), nil)
 		return
 	}
-	setCurrent(ibbCase{Mode: "ibb", Actions: acts})
+	setCurrent(ibbCase{Mode: "ibb", Carrier: carrier, Actions: acts})
 	for _, a := range acts {
 		run.do(a)
 		if a.Op == "snap" && !run.failed {
@@ -453,11 +461,11 @@ func (x *runner) ibbReplay(acts []ibbAction, class string) {
 	x.ibbFinish(run, acts, class)
 }
 
-func (x *runner) ibbWalk(r *hx.Rand, steps int) {
+func (x *runner) ibbWalk(carrier string, r *hx.Rand, steps int) {
 	if x.skip("ibb") {
 		return
 	}
-	run, err := newIbbRun()
+	run, err := newIbbRun(carrier)
 	if err != nil {
 		x.res.Fail("C06/harness/setup", err.Error(), nil)
 		return
@@ -496,7 +504,7 @@ func (x *runner) ibbWalk(r *hx.Rand, steps int) {
 			pick -= w
 		}
 		acts = append(acts, a)
-		setCurrent(ibbCase{Mode: "ibb", Actions: acts})
+		setCurrent(ibbCase{Mode: "ibb", Carrier: carrier, Actions: acts})
 		run.do(a)
 		if a.Op == "snap" && !run.failed {
 			x.ibbEmit(run, acts, "snapshot")
